@@ -200,6 +200,12 @@ func (g *IG) loopFormAt(z *Polyizer, b *ssa.BasicBlock) (*LoopForm, bool) {
 			continue
 		}
 		k, isC := c.isConst()
+		if !isC && len(c) > 0 {
+			// a test of a variable with a symbolic stride: the exit, but no trip count
+			tests = append(tests, g.Idx[ifi], -1)
+			lf.Exit = g.Idx[ifi]
+			continue
+		}
 		if !isC || k == 0 {
 			continue // not a test of the induction variables
 		}
@@ -540,4 +546,22 @@ func deadBackPreds(h *ssa.BasicBlock, body map[*ssa.BasicBlock]bool) map[int]boo
 		}
 	}
 	return dead
+}
+
+// otherExits lists the edges that leave the loop other than through its
+// counting test (a break, a return or a jump out of the body).
+func (lf *LoopForm) otherExits(g *IG) []*ssa.BasicBlock {
+	var out []*ssa.BasicBlock
+	for blk := range lf.Body {
+		isExitTest := lf.Exit >= 0 && g.Ins[lf.Exit].Block() == blk
+		for _, sb := range blk.Succs {
+			if !lf.Body[sb] && !isExitTest {
+				out = append(out, blk)
+			}
+		}
+		if len(blk.Succs) == 0 {
+			out = append(out, blk) // (a return or panic inside the body)
+		}
+	}
+	return out
 }
